@@ -15,6 +15,7 @@ COLS = ["liquidity_rate", "stable_borrow_rate", "variable_borrow_rate", "liquidi
 TS = datetime(2023, 9, 12, 15)
 TOL = F(1, 10 ** 30)
 _rp_cache: dict = {}
+TOKEN_DECIMALS = {"USDC": 6, "USDT": 6, "WBTC": 8, "EURS": 2, "GUSD": 2, "USDC.E": 6, "USDBC": 6}
 
 
 def rp_files():
@@ -78,7 +79,7 @@ def build(case: Case):
     from demeter.aave import AaveV3Market, SupplyInfo, BorrowInfo
 
     names = list(case.toks)
-    tokens = {n: TokenInfo(n, 18) for n in names}
+    tokens = {n: TokenInfo(n, TOKEN_DECIMALS.get(n.upper(), 18)) for n in names}      # decimals 6 / 8 / 18 as on chain
     m = AaveV3Market(MarketInfo("aave", MarketTypeEnum.aave_v3), case.rp_path, tokens=list(tokens.values()))
     if case.rp_over:
         rp = m._risk_parameters.copy()
